@@ -36,6 +36,10 @@ structure Topo where
   zoneOf : Ep → Zone
   eps : Ep → Zone → List Ep
   conn : Ep → Ep → Bool
+  /-- `syncing self e` is `e->GetSyncing()` on node `self`: set while `self` replays its log to `e`
+      (apilistener.cpp:884-938).  Relaying reads it in ONE place only: `SyncSendMessage` queues nothing for such an
+      endpoint (apilistener.cpp:1180).  `GetMaster` and `RelayMessageOne` do not look at it. -/
+  syncing : Ep → Ep → Bool := fun _ _ => false
 
 /-- `MessageOrigin` (messageorigin.hpp) as far as relaying reads it: the endpoint of `FromClient` (`none`: no
     client, or an anonymous one without `Endpoint` object) and `FromZone`.  A null `origin` pointer behaves exactly
@@ -165,6 +169,10 @@ def relayFuel (fuel : Nat) (T : Topo) (self : Ep) (o : Origin) (objZone : Option
 def relay (T : Topo) (self : Ep) (o : Origin) (objZone : Option Zone) (log : Bool) : Result :=
   relayFuel maxDepth T self o objZone log
 
+/-- `ApiListener::SyncSendMessage` (apilistener.cpp:1176-1203): of the endpoints the message was handed over for, those
+    that are not `syncing` get it queued - on exactly one connection, the newest. -/
+def queued (T : Topo) (self : Ep) (r : Result) : List Ep := r.sent.filter (fun e => !T.syncing self e)
+
 /-! ### The network: one event travelling through the cluster -/
 
 /-- `Zone::IsChildOf` (zone.cpp:109-121): `a` is `z` or has `z` among its parents. -/
@@ -203,6 +211,7 @@ def accept (T : Topo) (oz : Zone) (o : Origin) : Bool :=
 /-- the messages a node puts on the wire when it relays the event with origin `o` -/
 def emit (T : Topo) (self : Ep) (o : Origin) (oz : Zone) : List Msg :=
   (relay T self o (some oz) true).sent.map (fun e => ⟨e, self, o.fromZone⟩)
+-- (the network model is about a cluster in which nobody is `syncing`: see "not modelled")
 
 /-- global state while one event about an object of zone `oz` propagates -/
 structure Net where
